@@ -206,9 +206,82 @@ func (c *Ctx) refSegs(info *types.Info, body *ast.BlockStmt, e ast.Expr, env map
 			return []string{"call:" + fn.Name()}
 		}
 	case *ast.SelectorExpr:
+		// r.field where r ranges over a literal table of structs: one alternative per row
+		if id, ok := ast.Unparen(x.X).(*ast.Ident); ok && body != nil && depth < 5 {
+			if rows := tableRows(info, body, id); len(rows) > 0 {
+				var alts []string
+				for _, row := range rows {
+					fe := rowField(info, row, x.Sel.Name)
+					if fe == nil {
+						alts = nil
+						break
+					}
+					sub := c.refNameCanon(info, body, fe, depth+1)
+					alts = append(alts, sub)
+				}
+				if len(alts) > 0 {
+					return []string{"alts(" + strings.Join(alts, "||") + ")"}
+				}
+			}
+		}
 		return []string{"sel:" + types.ExprString(x)}
 	}
 	return []string{"expr:" + types.ExprString(e)}
+}
+
+// tableRows: id is the value variable of `for _, id := range T` where T is (a local defined as) a composite literal
+// of struct rows; the rows are returned.
+func tableRows(info *types.Info, body *ast.BlockStmt, id *ast.Ident) []*ast.CompositeLit {
+	obj := info.ObjectOf(id)
+	var rows []*ast.CompositeLit
+	ast.Inspect(body, func(n ast.Node) bool {
+		rs, ok := n.(*ast.RangeStmt)
+		if !ok {
+			return true
+		}
+		v, ok := rs.Value.(*ast.Ident)
+		if !ok || info.ObjectOf(v) != obj {
+			return true
+		}
+		src := ast.Unparen(rs.X)
+		if sid, ok := src.(*ast.Ident); ok {
+			if d := localDef(info, body, sid); d != nil {
+				src = ast.Unparen(d)
+			}
+		}
+		if cl, ok := src.(*ast.CompositeLit); ok {
+			for _, el := range cl.Elts {
+				if row, ok := ast.Unparen(el).(*ast.CompositeLit); ok {
+					rows = append(rows, row)
+				}
+			}
+		}
+		return true
+	})
+	return rows
+}
+
+// rowField: the expression a struct row gives to the named field (keyed or positional).
+func rowField(info *types.Info, row *ast.CompositeLit, name string) ast.Expr {
+	for _, el := range row.Elts {
+		if kv, ok := el.(*ast.KeyValueExpr); ok {
+			if k, ok := kv.Key.(*ast.Ident); ok && k.Name == name {
+				return kv.Value
+			}
+		}
+	}
+	if t := info.TypeOf(row); t != nil {
+		if st, ok := t.Underlying().(*types.Struct); ok {
+			for i := 0; i < st.NumFields() && i < len(row.Elts); i++ {
+				if st.Field(i).Name() == name {
+					if _, keyed := row.Elts[i].(*ast.KeyValueExpr); !keyed {
+						return row.Elts[i]
+					}
+				}
+			}
+		}
+	}
+	return nil
 }
 
 var c18TemplateVar = regexp.MustCompile(`\{([^}/]+)\}`)
@@ -268,6 +341,18 @@ func checkC18(c *Ctx) {
 		kc = regexp.MustCompile(`\((\w+)\)$`).ReplaceAllString(kc, "(M)")
 		keySet[kc] = true
 	}
+	// a reference taken from a row of a literal table stands for one reference per row
+	var expanded []site
+	for _, rf := range refs {
+		if strings.HasPrefix(rf.canon, "alts(") && strings.HasSuffix(rf.canon, ")") {
+			for _, a := range strings.Split(rf.canon[5:len(rf.canon)-1], "||") {
+				expanded = append(expanded, site{a, rf.pos, rf.fn})
+			}
+			continue
+		}
+		expanded = append(expanded, rf)
+	}
+	refs = expanded
 	sort.Slice(refs, func(i, j int) bool { return refs[i].pos < refs[j].pos })
 	for _, rf := range refs {
 		rc := rf.canon
